@@ -26,22 +26,21 @@
 (*   numunits   units may only follow numbers (ODL, PDS3)                   *)
 (*   scalarsets sets contain only simple values (ODL, PDS3)                 *)
 (***************************************************************************)
-EXTENDS Naturals, Sequences, TLC
+EXTENDS PvlText
 
-N(t, s, xs) == [t |-> t, s |-> s, xs |-> xs]
-NoVal == N("none", "", <<>>)
 Item(name, v) == N("item", name, <<v>>)
-Empty(line) == N("empty", ToString(line), << N("str", "", <<>>) >>)   \* placeholder: an empty string carrying the line
+Empty(line) == N("empty", Dec(line), << N("str", <<>>, <<>>) >>)   \* placeholder: an empty string carrying the line
 
 Frame(f, kw, name) == [f |-> f, kw |-> kw, name |-> name, items |-> <<>>]
+NoName == <<>>
 (* f: "mod" | "blk" | "seq" | "set" ; kw: "BG"/"BO" for blocks *)
 
-GInit == [stk |-> << Frame("mod", "", "") >>,
+GInit == [stk |-> << Frame("mod", "", NoName) >>,
           phase |-> "stmt",      \* see GStep
-          name |-> "",           \* pending parameter name
+          name |-> NoName,       \* pending parameter name
           val |-> NoVal,         \* pending value of the assignment being read
           eqline |-> 0,          \* line of the '=' of the assignment being read
-          bare |-> "",           \* text of the pending value when it is a bare name-capable word (tolerant deferral)
+          bare |-> NoName,       \* text of the pending value when it is a bare name-capable word (tolerant deferral)
           verdict |-> "live",    \* live | accept | reject
           locus |-> "",          \* where the reference rejected
           errs |-> <<>>,         \* lines of repaired missing values, in order of repair
@@ -60,20 +59,20 @@ IsValueTok(t) == (t.k = "V") \/ (t.k = "W" /\ t.v.t # "nav")
 
 (* the assignment under construction is complete: append it to the enclosing block *)
 Commit(st) == [st EXCEPT !.stk = PushItem(st.stk, Item(st.name, st.val)),
-                         !.name = "", !.val = NoVal, !.bare = ""]
+                         !.name = NoName, !.val = NoVal, !.bare = NoName]
 (* the value of the pending assignment is missing (tolerant only) *)
 CommitEmpty(st) == [st EXCEPT !.stk = PushItem(st.stk, Item(st.name, Empty(st.eqline))),
                               !.errs = Append(st.errs, st.eqline),
-                              !.name = "", !.val = NoVal, !.bare = ""]
+                              !.name = NoName, !.val = NoVal, !.bare = NoName]
 CloseBlock(st) ==
    LET b == Top(st)
    IN [st EXCEPT !.stk = PushItem(Pop(st.stk),
-                   Item(b.name, N(IF b.kw = "BG" THEN "PVLGroup" ELSE "PVLObject", "", b.items)))]
+                   Item(b.name, N(IF b.kw = "BG" THEN "PVLGroup" ELSE "PVLObject", <<>>, b.items)))]
 
 (* a token that may start a statement, seen at a statement boundary *)
 StmtStart(st, t) ==
    CASE t.k = "W" -> [st EXCEPT !.phase = "n", !.name = t.s]
-     [] t.k \in {"BG", "BO"} -> [st EXCEPT !.stk = Append(st.stk, Frame("blk", t.k, "")), !.phase = "b"]
+     [] t.k \in {"BG", "BO"} -> [st EXCEPT !.stk = Append(st.stk, Frame("blk", t.k, NoName)), !.phase = "b"]
      [] t.k \in {"EG", "EO"} ->
           IF Top(st).f = "blk" /\ ((Top(st).kw = "BG") <=> (t.k = "EG"))
           THEN [st EXCEPT !.phase = "e"]
@@ -89,9 +88,9 @@ GotValue(st, v, baretext) ==
 
 CloseColl(st) ==
    LET f == Top(st)
-       v == N(f.f, "", f.items)
+       v == N(f.f, <<>>, f.items)
        s2 == [st EXCEPT !.stk = Pop(st.stk)]
-   IN GotValue(s2, v, "")
+   IN GotValue(s2, v, NoName)
 
 Closes(st, t) == (t.k = ")" /\ Top(st).f = "seq") \/ (t.k = "}" /\ Top(st).f = "set")
 
@@ -104,7 +103,7 @@ WithUnits(cfg, st, t) ==
            THEN [st EXCEPT !.stk = [st.stk EXCEPT ![Len(st.stk)].items =
                                        [its EXCEPT ![Len(its)] = N("qty", t.v.s, <<lastv>>)]],
                            !.phase = "avu"]
-           ELSE [st EXCEPT !.val = N("qty", t.v.s, <<st.val>>), !.phase = "avu", !.bare = ""]
+           ELSE [st EXCEPT !.val = N("qty", t.v.s, <<st.val>>), !.phase = "avu", !.bare = NoName]
 
 (* tolerant: is the value after '=' missing when t comes next? *)
 MissingBefore(t) == t.k \in {"END", "EG", "EO", "BG", "BO", ";"}
@@ -117,10 +116,10 @@ GStep0(cfg, st, t) ==
          IF t.k = "=" THEN [st EXCEPT !.phase = "v", !.eqline = t.line] ELSE Reject(st, "afterName/" \o t.k)
     [] st.phase \in {"v", "v0", "vc"} ->              \* a value is expected (v0: right after an opening bracket, vc: after a comma)
          IF IsValueTok(t) THEN
-              GotValue(st, t.v, IF t.k = "W" /\ ~InColl(st) THEN t.s ELSE "")
+              GotValue(st, t.v, IF t.k = "W" /\ ~InColl(st) THEN t.s ELSE NoName)
          ELSE IF t.k \in {"(", "{"} THEN
               IF cfg.scalarsets /\ Top(st).f = "set" THEN Reject(st, "collection-in-odl-set")
-              ELSE [st EXCEPT !.stk = Append(st.stk, Frame(IF t.k = "(" THEN "seq" ELSE "set", t.k, "")), !.phase = "v0"]
+              ELSE [st EXCEPT !.stk = Append(st.stk, Frame(IF t.k = "(" THEN "seq" ELSE "set", t.k, NoName)), !.phase = "v0"]
          ELSE IF st.phase = "v0" /\ Closes(st, t) THEN CloseColl(st)
          ELSE IF cfg.tolerant /\ st.phase = "v" /\ ~InColl(st) /\ MissingBefore(t) THEN
               IF t.k = ";" THEN [CommitEmpty(st) EXCEPT !.phase = "stmt"]
@@ -133,7 +132,7 @@ GStep0(cfg, st, t) ==
               ELSE IF Closes(st, t) THEN CloseColl(st)
               ELSE Reject(st, "inColl-afterValue/" \o t.k)
          ELSE IF t.k = ";" THEN [Commit(st) EXCEPT !.phase = "stmt"]
-         ELSE IF cfg.tolerant /\ t.k = "=" /\ st.bare # "" THEN
+         ELSE IF cfg.tolerant /\ t.k = "=" /\ st.bare # NoName THEN
               \* `a = b = ...`: the value of a is missing, b is the next parameter name
               [CommitEmpty(st) EXCEPT !.name = st.bare, !.phase = "v", !.eqline = t.line]
          ELSE StmtStart(Commit(st), t)
@@ -180,7 +179,7 @@ Parse(cfg, toks) == GEof(cfg, GRun(cfg, GInit, toks, 1))
 SortedErrs(st) == LET e == st.errs IN
    \* errs are produced in textual order of the '=' signs, hence already ascending
    e
-Result(st) == N("PVLModule", "", st.stk[1].items)
+Result(st) == N("PVLModule", <<>>, st.stk[1].items)
 Outcome(st) == [verdict |-> st.verdict, locus |-> st.locus,
                 tree |-> IF st.verdict = "accept" THEN Result(st) ELSE NoVal,
                 errs |-> IF st.verdict = "accept" THEN st.errs ELSE <<>>]
